@@ -44,6 +44,9 @@ def run(tier, rep):
                            "summary": "after %s (pooling=%s) the real pointer structure is not the one IDR.tla specifies, or an invariant (%s) fails" % (
                                ev.get("ev"), pooling, rj["tlc"]),
                            "event": ev, "word": [{k: e.get(k) for k in ("ev", "c", "p", "n", "t", "f")} for e in rj["events"][: rj["failing_index"] + 1]]})
+    # 2b. who releases what, and when: the Read / Release calls the ingester makes on the real readers follow Ingester.tla
+    # (every node handed out is released exactly once, before the next Read) - independent of what the allocator then does
+    vlib.ingester_protocol(rep, "C12", thorough)
     # 3. trees handed out by the seven readers + pool ownership events
     tr = os.path.join(vlib.scratch(), "c12.audit.ndjson")
     recs, _ = vlib.run_vh(["c12-readers", tr, "12" if thorough else "3"])
@@ -56,5 +59,5 @@ def run(tier, rep):
     rep.cov["rule"] = ("all reachable arena states with K cells (TLC); every legal CreateNode/AddChild/RemoveAndReleaseTree word up to "
                        "length 5/6 over <=3 live nodes plus random words, executed on the real idr package with pooling on and off, each "
                        "step compared with the specified pointer structure; pointer-structure dumps after every Read of the 7 readers "
-                       "on samples and damaged inputs; pool get/put ownership events. non-trivial: a word that removes after attaching "
+                       "on samples and damaged inputs and on random declaration hierarchies (csv2 / fixedlength2 / edi); the ingester's Read / Release calls on the real readers validated against Ingester.tla; pool get/put ownership events. non-trivial: a word that removes after attaching "
                        "or re-acquires a released cell; a dumped tree with >=3 nodes")
